@@ -1,5 +1,7 @@
 """Engines (one per specification family) and the per-property checks built on them."""
+import hashlib
 import json
+import shutil
 import os
 import sys
 import time
@@ -53,7 +55,7 @@ ALL_PROPS = ["C03_MutatorFrame", "C06_BookkeepingOnly", "C08_PhaseProtocol"]
 
 def heap_constants(n_obj=2, kinds=("N",), budgets=(1, 2), grans=("P1", "P2"), max_ops=0, emit="none",
                    vias=("mutate_root",), max_kids=2, max_weak=1, barrier_only=False, finalize=True, drop=True,
-                   many=False, fault_ats=(), max_handles=0, weak=True, unlink=True, debt_calls=True, leak=False):
+                   many=False, fault_ats=(), max_handles=0, weak=True, unlink=True, debt_calls=True, leak=False, dfault_ats=()):
     objs = ", ".join(f"o{i + 1}" for i in range(n_obj))
     return {
         "Obj": "{" + objs + "}", "NoObj": "NoObj", "MaxKids": max_kids, "MaxWeak": max_weak,
@@ -64,6 +66,7 @@ def heap_constants(n_obj=2, kinds=("N",), budgets=(1, 2), grans=("P1", "P2"), ma
         "FaultAts": tla_set(fault_ats, quote=False), "MaxHandles": max_handles,
         "WithWeak": "TRUE" if weak else "FALSE", "WithUnlink": "TRUE" if unlink else "FALSE",
         "WithDebtCalls": "TRUE" if debt_calls else "FALSE", "WithLeak": "TRUE" if leak else "FALSE",
+        "DFaultAts": tla_set(dfault_ats, quote=False),
     }
 
 
@@ -100,15 +103,26 @@ def core_models(tier, d):
     quick = tier == "quick"
 
     def run(name, module, cfg, per_class, limit, timeout, sim=None):
-        r = run_tlc(module, cfg, name, d, workers=workers, timeout=timeout, xmx="10g", simulate=sim[0] if sim else None,
-                    depth=sim[1] if sim else None)
-        model_error(r)
-        f = os.path.join(d, f"beh_{name}.ndjson")
-        n, ncls = extract_behaviours(r["out"], f, per_class=per_class, limit=limit)
-        r["behaviours"], r["classes"] = n, ncls
-        os.remove(r["out"])
+        # each TLC job is memoised by itself (the modules it reads, its configuration, how behaviours are
+        # extracted): changing one job's bounds does not re-run the others
+        mods = ["GcHeap.tla", module + ".tla"]
+        jkey = hashlib.sha256((gcv._hash_paths([os.path.join(SPEC, x) for x in mods] + [os.path.join(ROOT, "runner", "gcv.py")])
+                               + cfg + repr((per_class, limit, sim, seed()))).encode()).hexdigest()[:20]
+
+        def job(jd):
+            r = run_tlc(module, cfg, name, jd, workers=workers, timeout=timeout, xmx="10g", simulate=sim[0] if sim else None,
+                        depth=sim[1] if sim else None)
+            model_error(r)
+            f = os.path.join(jd, f"beh_{name}.ndjson")
+            n, ncls = extract_behaviours(r["out"], f, per_class=per_class, limit=limit)
+            r["behaviours"], r["classes"] = n, ncls
+            os.remove(r["out"])
+            r["beh_file"] = f
+            return r
+
+        r, _ = memo(f"tlc-{tier}-{name}", jkey, job)
         tlc_runs.append(r)
-        beh_files.append((name, f))
+        beh_files.append((name, r["beh_file"]))
 
     ALLK = ("N", "S", "L", "O", "F")
     VIAS = ("mutate_root", "map_root", "try_map_root")
@@ -135,10 +149,14 @@ def core_models(tier, d):
                                        unlink=False, debt_calls=False, drop=False, max_ops=12), None, 12000 if quick else 120000, 3000,
          ("num=600" if quick else "num=6000", 13)),
         # (4b) consequences: one witness per (class of transition, operation that follows it)
-        ("n2_pairs", "MC_GcHeap", hc("pairs", n_obj=2, many=True, max_ops=6 if quick else 8), 1, None, 3000),
+        ("n2_pairs", "MC_GcHeap", hc("pairs", n_obj=2, many=True, max_ops=5 if quick else 7), 1, None, 6000),
         # (4c) a RefLock frozen by a leaked RefMut (safe code): tracing it must panic, never skip it
         ("n2_leak", "MC_GcHeap", hc("pairs", n_obj=2, leak=True, finalize=False, drop=False, debt_calls=False, budgets=(1,),
                                     grans=("P1",), max_ops=5 if quick else 7), 1, None, 3000),
+        # (4d) a user destructor that panics while the collector (or the arena's drop) runs it; the collection is
+        #      resumed afterwards: nothing is destructed twice, is_dropped stays exact
+        ("n2_dfaults", "MC_GcHeap", hc("classes", n_obj=2, dfault_ats=(0, 1), finalize=False, grans=("P1",),
+                                       max_ops=6 if quick else 8), 2, None, 3000),
         # (5) two arenas on one thread (C20): interleavings of a reduced menu
         ("two_arenas", "TwoArenas", two_arenas_cfg(4 if quick else 5), None, 12000 if quick else 200000, 3000),
     ]
@@ -158,6 +176,16 @@ def core_models(tier, d):
     tlc_runs.sort(key=lambda r: order[r["name"]])
     beh_files.sort(key=lambda b: order[b[0]])
     return {"tlc": tlc_runs, "beh_files": beh_files}
+
+
+def get_models(tier):
+    """The memoised model runs of a tier; recomputed if a behaviour file it names has gone."""
+    for _ in range(2):
+        models, md = memo("model-" + tier, spec_key(f"-{seed()}"), lambda dd: core_models(tier, dd))
+        if all(os.path.exists(f) for _, f in models["beh_files"]):
+            return models, md
+        shutil.rmtree(md, ignore_errors=True)
+    raise ToolError("model behaviour files missing after recomputation")
 
 
 MODEL_FILES = ["GcHeap.tla", "MC_GcHeap.tla", "MC_Pacing.tla", "TwoArenas.tla"]
@@ -182,7 +210,7 @@ def core_key(extra=""):
 
 def core_engine(tier, d):
     t0 = time.time()
-    models, md = memo("model-" + tier, spec_key(f"-{seed()}"), lambda dd: core_models(tier, dd))
+    models, md = get_models(tier)
     tlc_runs = models["tlc"]
     beh_files = [tuple(x) for x in models["beh_files"]]
     replays = {}
@@ -249,6 +277,7 @@ def report_violations(prop, viols, res, findings):
     """Print KNOWN-FINDING / VIOLATION lines.  Returns the number of new violations."""
     new = 0
     printed_known = set()
+    seen_paths = set()
     os.makedirs(os.path.join(WORK, "replays"), exist_ok=True)
     for v in viols:
         kf = match_finding(prop, v, findings)
@@ -257,13 +286,16 @@ def report_violations(prop, viols, res, findings):
                 print(f"KNOWN-FINDING: property={prop} {kf['id']}: {kf['what']}")
                 printed_known.add(kf["id"])
             continue
+        path = os.path.join(WORK, "replays", f"{prop}_{v.get('source', 'x').replace(':', '-')}_{v['beh']}_{v['rule']}.json")
+        if path in seen_paths:
+            continue        # the same rule broken again later in the same behaviour
+        seen_paths.add(path)
         new += 1
         if new > 5:
             continue
         beh = v.get("behaviour")
         if beh is None and v.get("source") in res.get("beh_files", {}):
             beh = behaviour_at(res["beh_files"][v["source"]], v["beh"])
-        path = os.path.join(WORK, "replays", f"{prop}_{v.get('source', 'x').replace(':', '-')}_{v['beh']}_{v['rule']}.json")
         json.dump({"property": prop, "rule": f"{v['prop']}.{v['rule']}", "object": v["obj"], "trace_line": v["line"],
                    "engine": v.get("engine", "core"), "source": v.get("source"), "behaviour": beh,
                    "profile": (v.get("source") or ":debug").split(":")[-1],
@@ -652,7 +684,7 @@ def setup():
                 print(p.stdout[-2000:])
                 raise ToolError(f"SANY rejects {f}")
     # the model-only runs depend on the specification alone: do them once here (memoised)
-    memo("model-quick", spec_key(f"-{seed()}"), lambda dd: core_models("quick", dd))
+    get_models("quick")
     memo("pmodel-quick", spec_key(f"-{seed()}"), lambda dd: pacing_models("quick", dd))
     print("setup ok")
     return 0
@@ -664,7 +696,7 @@ def replay_file(path):
     crash = (rec.get("extra") or {}).get("crash")
     if crash and crash.get("how") in ("with-history", "unconfirmed"):
         # the crash needs the same process history: re-run the shard up to that behaviour
-        models, _ = memo("model-quick", spec_key(f"-{seed()}"), lambda dd: core_models("quick", dd))
+        models, _ = get_models("quick")
         files = dict(tuple(x) for x in models["beh_files"])
         src, profile = rec["source"].split(":")
         binary = build_harness(profile)
